@@ -54,3 +54,7 @@ def run(ctx):
     ctx.rule = ("every edge (abstract state, public call) of the TLC-explored session design (%d histories) replayed on the "
                 "real session with a file persister, plus seeded histories with configured start numbers / acceptor role / "
                 "memory persister; distinct = distinct call sequences with more than two calls" % len(hists))
+
+
+def replay(ctx, doc):
+    sc.replay_case(ctx, doc)
